@@ -11,7 +11,11 @@ CONSTANTS Workers, CallsPerWorker
 Objs == {"template", "message", "complete"}      \* a list template with variables and an ellipsis; a message on it; a complete message
 Ops == {"String", "ToBytes", "Variables", "Size", "Header", "Fill", "SetWaitBit", "SetSession", "SmlParse", "HsmsParse"}
 \* which operations exist on which shared object (parsers read a shared input text / byte string)
-Applicable(op, o) == CASE op \in {"String", "ToBytes", "Variables", "Fill"} -> TRUE
+\* (two further shared things that only the hammer configurations use: "text", an SML text whose size declarations are written
+\* with blanks, line breaks and comments, and "control", a control message nothing has looked at yet)
+Applicable(op, o) == CASE o = "text" -> op = "SmlParse"
+                       [] o = "control" -> op \in {"ToBytes", "Type"}
+                       [] op \in {"String", "ToBytes", "Variables", "Fill"} -> TRUE
                        [] op = "Size" -> o = "template"
                        [] op \in {"Header", "SetWaitBit", "SetSession"} -> o # "template"
                        [] op = "SmlParse" -> o = "template"          \* parses the printed form of the shared template
